@@ -47,7 +47,9 @@ def handle0 : Handler := fun input impl =>
   | "locks" =>
     ("static", match judgeStatic tbl Pandora.Gen.Locks.closures Pandora.Gen.Locks.handoverSites Pandora.Gen.Locks.pkgVars Pandora.Gen.Locks.ammoFlows Pandora.Gen.Locks.pooledEscapes Pandora.Gen.Locks.ammoWrites with
       | "ok" => (match judgeComponentVars Pandora.Gen.Locks.pkgVars with
-        | "ok" => judgeLoop Pandora.Gen.InstLoop.iterBody
+        | "ok" => (match judgeSetupCallers Pandora.Gen.Locks.setupCallers with
+          | "ok" => judgeLoop Pandora.Gen.InstLoop.iterBody
+          | v => v)
         | v => v)
       | v => v)
   | "alias" =>
